@@ -102,6 +102,11 @@ impl<'a> AsciiDecLit<'a> {
 
     /// self <- self[n..]
     unsafe fn skip_n(&mut self, n: usize) -> &mut Self {
+        #[cfg(all(fpdec_verif, feature = "std"))]
+        crate::verif::emit(crate::verif::Event::ParserStep {
+            req: n,
+            rem: self.bytes.len(),
+        });
         debug_assert!(self.bytes.len() >= n);
         self.bytes = self.bytes.get_unchecked(n..);
         self
@@ -136,6 +141,11 @@ impl<'a> AsciiDecLit<'a> {
 
     // Read 8 bytes as u64 (little-endian).
     unsafe fn read_u64_unchecked(&self) -> u64 {
+        #[cfg(all(fpdec_verif, feature = "std"))]
+        crate::verif::emit(crate::verif::Event::ParserStep {
+            req: 8,
+            rem: self.bytes.len(),
+        });
         debug_assert!(self.bytes.len() >= 8);
         let src = self.bytes.as_ptr() as *const u64;
         u64::from_le(ptr::read_unaligned(src))
